@@ -298,6 +298,15 @@ class Run(object):
                                       for k, v in rep.items() if k in self.gen_used()}
         return ok and pok and not bad
 
+    def defs(self, builder):
+        """translated definitions of a Gen builder as {name: Def}; an untranslatable source is a
+        signal (the proof obligation is broken anyway), not a crash of the check."""
+        try:
+            return dict((d.name, d) for d, _ in builder())
+        except gen.Untranslatable as e:
+            self.signal('translation', str(e))
+            return None
+
     def gen_used(self):
         src = open(os.path.join(COQ, 'Props', self.cid + '.v')).read()
         used = set(re.findall(r'Gen\.(\w+)|MTV\.Gen Require Import ([\w ]+)\.', src))
